@@ -210,6 +210,17 @@ func vBodyOK(m vMsg) bool {
 			if seen[code] {
 				return false // each field at most once
 			}
+			// only the field codes the protocol defines (a stray byte taken for a
+			// code — e.g. behind a NUL inside a text — is a malformed message)
+			known := false
+			for _, k := range []byte("SVCMDHPpqWstcdnFLR") {
+				if code == k {
+					known = true
+				}
+			}
+			if !known {
+				return false
+			}
 			seen[code] = true
 			j := vCString(b, i+1)
 			if j < 0 {
